@@ -59,10 +59,8 @@ def clone_val(v, memo):
             n = LocalArr(v.name, v.shape, v.fill); n.ident = v.ident; memo[id(v)] = n
             n.stores = list(v.stores)
         else:
-            n = Obj(v.cls); memo[id(v)] = n
+            n = object.__new__(type(v)); n.__dict__.update(v.__dict__); memo[id(v)] = n      # keeps subclass fields (markers, grids)
             n.attrs = {k: clone_val(e, memo) for k, e in v.attrs.items()}
-            for extra in ("hook",):
-                if hasattr(v, extra): setattr(n, extra, getattr(v, extra))
         return n
     return v
 
